@@ -23,12 +23,100 @@ HERE = os.path.dirname(os.path.dirname(os.path.abspath(__file__)))
 BASELINE = os.path.join(HERE, 'baseline_fns.json')
 
 
+_BL = None
+
+
+def _load_baseline_file():
+    global _BL
+    if _BL is None:
+        try:
+            with open(BASELINE) as f:
+                _BL = json.load(f)
+        except OSError:
+            _BL = {}
+    return _BL
+
+
 def load_baseline():
-    try:
-        with open(BASELINE) as f:
-            return set(json.load(f)['functions'])
-    except OSError:
-        return None
+    bl = _load_baseline_file()
+    return set(bl['functions']) if bl.get('functions') else None
+
+
+def _tail(fid):
+    """`Type::method` / `fn name`: the part of an id that survives a move to another module"""
+    m = re.search(r'<impl ([^>]*(?:<[^>]*>)?[^>]*)>::(\w+)$', fid)
+    if m:
+        return (m.group(1).split('::')[-1].split('<')[0], m.group(2))
+    parts = fid.split('::')
+    return (parts[-2] if len(parts) > 1 and parts[-2][:1].isupper() else '', parts[-1])
+
+
+def recover_moved(fx, log=None):
+    """A baseline function that disappeared while exactly one new function has the same name (and owner type) and
+    the same signature was moved (another module / file): give it its baseline id back, everywhere."""
+    bl = _load_baseline_file()
+    sigs = bl.get('signatures') or {}
+    if not sigs:
+        return []
+    base = set(bl['functions'])
+    crates = {r.get('crate') for r in fx.fns.values()}
+    cur = {k for k, r in fx.fns.items() if r.get('kind') != 'Closure'}
+    missing = [b for b in base - cur if b.split('::')[0].lstrip('<') in crates or b.startswith('<')]
+    new = [n for n in cur - base]
+    by_tail = {}
+    for n in new:
+        by_tail.setdefault(_tail(n), []).append(n)
+    ren = {}
+    for b in missing:
+        cands = [n for n in by_tail.get(_tail(b), []) if fx.fns[n]['locals'][:fx.fns[n]['argc'] + 1] == sigs.get(b)
+                 and n.split('::')[0] == b.split('::')[0]]
+        if len(cands) == 1 and cands[0] not in ren.values():
+            ren[b] = cands[0]
+    if not ren:
+        return []
+    back = {n: b for b, n in ren.items()}
+
+    def fix(x):
+        if not isinstance(x, str):
+            return x
+        for n, b in back.items():
+            if x == n:
+                return b
+            if x.startswith(n + '::{closure'):
+                return b + x[len(n):]
+            if x.startswith('closure:' + n + '::{closure'):
+                return 'closure:' + b + x[len('closure:' + n):]
+        return x
+    newfns = {}
+    for k, r in fx.fns.items():
+        r['id'] = fix(r['id'])
+        if r.get('parent'):
+            r['parent'] = fix(r['parent'])
+        for bb in r['bbs']:
+            t = bb['t']
+            if t['k'] == 'call':
+                f = t['f']
+                if f.get('def'):
+                    f['def'] = fix(f['def'])
+                if f.get('inst'):
+                    f['inst'] = fix(f['inst'])
+            for s_ in bb['s']:
+                if s_[0] == 'A' and s_[2][0] == 'agg' and isinstance(s_[2][1], str) and s_[2][1].startswith('closure:'):
+                    s_[2][1] = fix(s_[2][1])
+        newfns[r['id']] = r
+    fx.fns.clear()
+    fx.fns.update(newfns)
+    for m in fx.matches:
+        m['fn'] = fix(m['fn'])
+    for m in fx.lets:
+        m['fn'] = fix(m['fn'])
+    for im in fx.impls:
+        im['methods'] = [[a, fix(b)] for a, b in im.get('methods', [])]
+    fx._m_by_fn = None
+    fx._l_by_fn = None
+    if log is not None:
+        print('tprules: moved functions recognised: %s' % ', '.join('%s <- %s' % (b.split('::')[-1], n) for b, n in ren.items()), file=log)
+    return sorted(ren.items())
 
 
 def _is_place(x):
@@ -326,7 +414,8 @@ def lower_map_err(fx):
 
 
 def apply(fx, log=None):
-    info = {'map_err_lowered': lower_map_err(fx), 'helpers': []}
+    moved = recover_moved(fx, log)
+    info = {'map_err_lowered': lower_map_err(fx), 'helpers': [], 'moved': moved}
     bl = load_baseline()
     if bl is not None:
         info['helpers'] = inline_new_helpers(fx, bl, log)
